@@ -377,6 +377,45 @@ pub fn run_c06(args: &Args) -> Report {
             }
         }
     }
+    // an up-to-date output with one byte appended must fail verification at every length of the fresh output, also at exact
+    // multiples of the buffer sizes a reader may use (8 KiB, 64 KiB)
+    if args.shard == 2 % args.shards.max(1) {
+        for size in [0usize, 8192, 65536, 131072, 65537] {
+            let mut src = Vec::new();
+            let mut left = size;
+            while left > 0 {
+                let line = left.min(4096);
+                src.extend(std::iter::repeat(b'a').take(line - 1));
+                src.push(b'\n');
+                left -= line;
+            }
+            let d = runner.dir.clone();
+            let _ = std::fs::remove_dir_all(&d);
+            std::fs::create_dir_all(&d).unwrap();
+            std::fs::write(d.join("sized.txt.txtpp"), &src).unwrap();
+            let mut cfg = RunCfg::build_all();
+            cfg.threads = 1;
+            let b = run_impl(&d, &cfg, &runner.log);
+            let built = std::fs::read(d.join("sized.txt")).ok();
+            if b.verdict != "ok" || built.as_ref().map(|x| x.len()) != Some(size) {
+                rep.notes.push(format!("sized-tail setup: build of a {size}-byte output gave {}", b.verdict));
+                continue;
+            }
+            for tail in [&b"x"[..], &b"appended line\n"[..]] {
+                let mut t = built.clone().unwrap();
+                t.extend_from_slice(tail);
+                std::fs::write(d.join("sized.txt"), &t).unwrap();
+                let mut vcfg = cfg.clone();
+                vcfg.mode = "verify";
+                let v = run_impl(&d, &vcfg, &runner.log);
+                rep.count("verify-appended-tail-at-buffer-multiples");
+                if v.verdict == "ok" {
+                    let what = format!("C06: verify passes although {} byte(s) were appended to the up-to-date output of exactly {size} bytes", tail.len());
+                    rep.violation("oracle", &what, &format!("# {what}\n# source: {size} bytes in lines of 4096; output sized.txt + appended tail; txtpp verify .\n"));
+                }
+            }
+        }
+    }
     // an output that contains U+FFFD (EF BF BD): changing EF to F0 makes the file invalid UTF-8 whose *lossy* decoding is the
     // same text - verify compares bytes, so it must fail; likewise for a byte changed into an overlong / truncated sequence
     if args.shard == 0 {
